@@ -164,6 +164,10 @@ class Repo(object):
         for mod in self.modules.values():
             self._index_module(mod)
         self._resolve_bases()
+        self.renamed = {}
+        if not os.environ.get("VERIF_NO_REFNAMES"):
+            from . import refnames
+            self.renamed = refnames.apply_reference(self)
 
     # ------------------------------------------------------------------ build
 
